@@ -15,6 +15,7 @@ let err_class (e : Sparse.rerr) : string =
   | Sparse.XNoData -> "other"
   | Sparse.XNegative -> "other"
   | Sparse.XUnexpectedEOF -> "unexpected-eof"
+  | Sparse.XFile -> "other"
 
 let show_entry ((rq, r) : Sparse.request * Sparse.result) : string =
   let q = match rq with
@@ -86,6 +87,7 @@ let register () =
             | 'D' -> if thr (num hd) >= 0 then run_thread (thr (num hd)) (fun () -> false) 100000
             | 'U' -> let k = thr (num hd) in if k >= 0 then run_thread k (fun () -> at_set k) 100000
             | 'G' -> let k = thr (num hd) in if k >= 0 then run_thread k (fun () -> at_fetch k) 100000
+            | 'K' -> (match step !s Sparse.LUnlink with Some s' -> s := s' | None -> ())   (* the cache file is unlinked *)
             | 'Y' ->   (* Y:<K|A|R<n>>  a start-up that fails late (after replacing the state and resizing the cache) *)
                 (match Stdlib.List.tl parts with
                  | [cache] ->
